@@ -26,6 +26,7 @@ type c15Cell struct {
 	LateKey bool // keyring configured empty at creation, first key installed afterwards
 	Outer   bool `json:",omitempty"` // SkipInboundLabelCheck: an outer layer (the harness) strips inbound label headers
 	ShortWr int  `json:",omitempty"` // > 0: every stream Write accepts at most this many bytes and reports no error
+	Secret  bool `json:",omitempty"` // the nodes are created with Keyring AND SecretKey; the application rotates through its own ring
 }
 
 func (c c15Cell) String() string {
@@ -35,6 +36,9 @@ func (c c15Cell) String() string {
 	}
 	if c.ShortWr > 0 {
 		x += fmt.Sprintf(" short-writes<=%dB", c.ShortWr)
+	}
+	if c.Secret {
+		x += " keyring+secretkey"
 	}
 	return fmt.Sprintf("label=%q comp=%v proto=%d peerpmax=%d key=%d latekey=%v%s", c.Label, c.Comp, c.Proto, c.PMax, c.KeyLen, c.LateKey, x)
 }
@@ -125,6 +129,9 @@ func runC15Cell(t *testing.T, cell c15Cell, rep *Report) {
 			}
 			c.Keyring = kr
 			rings[name] = kr
+			if cell.Secret {
+				c.SecretKey = k1
+			}
 			c.SkipInboundLabelCheck = cell.Outer
 		})
 		p.OuterLayer = cell.Outer
@@ -343,15 +350,19 @@ func TestC15(t *testing.T) {
 		for _, comp := range []bool{false, true} {
 			for _, proto := range []uint8{1, 2, 5} {
 				for _, pm := range []uint8{4, 5} {
-					cells = append(cells, c15Cell{lb, comp, proto, pm, 16, false, false, 0})
+					cells = append(cells, c15Cell{lb, comp, proto, pm, 16, false, false, 0, false})
 				}
 			}
 		}
-		cells = append(cells, c15Cell{lb, true, 2, 5, 32, true, false, 0})
+		cells = append(cells, c15Cell{lb, true, 2, 5, 32, true, false, 0, false})
 	}
 	// a labelled node behind an outer layer that strips inbound label headers (SkipInboundLabelCheck)
 	for _, proto := range []uint8{1, 5} {
 		cells = append(cells, c15Cell{Label: "lbl55", Comp: proto == 5, Proto: proto, PMax: 5, KeyLen: 16, Outer: true})
+	}
+	// created with Keyring and SecretKey: the ring the application keeps (and rotates) is the one that counts
+	for _, lb := range []string{"", "lbl55"} {
+		cells = append(cells, c15Cell{Label: lb, Comp: true, Proto: 5, PMax: 5, KeyLen: 16, Secret: true})
 	}
 	// streams whose Write takes only part of the buffer without reporting an error
 	for _, lb := range []string{"", "lbl55"} {
@@ -362,7 +373,7 @@ func TestC15(t *testing.T) {
 	if thorough() {
 		for _, kl := range []int{24, 32} {
 			for _, proto := range []uint8{1, 3, 4} {
-				cells = append(cells, c15Cell{strings.Repeat("w", 255), true, proto, 5, kl, false, false, 0}, c15Cell{"x", false, proto, 4, kl, true, false, 0})
+				cells = append(cells, c15Cell{strings.Repeat("w", 255), true, proto, 5, kl, false, false, 0, false}, c15Cell{"x", false, proto, 4, kl, true, false, 0, false})
 			}
 		}
 	}
